@@ -57,13 +57,16 @@ Fed(x) == CASE x[1] = "bit" -> {1} \cup (IF FBitOut(fs, x[2])[1] = "byte" THEN {
             [] x[1] \in {"key", "mode"} -> {3}
             [] OTHER -> {1, 2, 3}
 
-(* in "spec" mode a difference is attributed to the property of the stage that produced it *)
+(* In "spec" mode a difference is attributed by the entry point used: a byte handed straight to the
+   scancode stage is that set's property, a key event the event stage's; a difference seen through
+   the bit / word entry points is reported as a framing difference (the framing properties are decided
+   exhaustively elsewhere and do not consume these records). *)
 PropOf(x, observed) ==
   IF observed[1] = "panic" THEN "C08"
   ELSE IF Mode = "wiring" THEN "C18"
-  ELSE CASE x[1] = "bit" -> IF FBitOut(fs, x[2])[1] = "byte" THEN (IF Comp = "kb1" THEN "C02" ELSE "C01") ELSE "C06"
-         [] x[1] = "word" -> IF FWordOut(x[2])[1] = "byte" THEN (IF Comp = "kb1" THEN "C02" ELSE "C01") ELSE "C05"
-         [] x[1] = "byte" -> IF Comp = "kb1" THEN "C02" ELSE "C01"
+  ELSE CASE x[1] = "bit" -> "C06"
+         [] x[1] = "word" -> "C05"
+         [] x[1] = "byte" -> (IF Comp = "kb1" THEN "C02" ELSE "C01")
          [] x[1] = "key" -> "C14"
          [] OTHER -> "C18"
 
